@@ -310,18 +310,22 @@ func runHs(t *testing.T, ksc KScenario, res *KResult) {
 		if !ampValid[addr] && ampSent[addr] >= 3*ampRcvd[addr] && !ampViolated {
 			ampViolated = true
 			sig := "server sent to an unvalidated address although it had already sent three times the bytes received from it"
-			onlyClose := len(rec.Pkts) > 0
+			onlyClose, anyClose := len(rec.Pkts) > 0, false
 			for _, p := range rec.Pkts {
-				if len(p.Frames) == 0 {
+				// (the same close goes out at every level the endpoint has keys for; the observer may lack the Handshake
+				// keys when the server refused the ClientHello: an unreadable packet between two closes is the third copy)
+				if len(p.Frames) == 0 && p.Opened {
 					onlyClose = false
 				}
 				for i := range p.Frames {
 					if n := p.Frames[i].Name; n != "CONNECTION_CLOSE" && n != "CONNECTION_CLOSE_APP" && n != "PADDING" {
 						onlyClose = false
+					} else if n != "PADDING" {
+						anyClose = true
 					}
 				}
 			}
-			if onlyClose {
+			if onlyClose && anyClose {
 				sig += " (a CONNECTION_CLOSE datagram)"
 			}
 			if os.Getenv("VERIF_DUMP_AMP") != "" {
@@ -987,6 +991,13 @@ func hsCheckOutcome(w *World, sc *HsScenario, n *Nodes, d *hsDialResult, idx int
 	// (a Retry on the wire is not yet a Retry the client acted on: it may have been lost, or have answered a damaged copy of
 	// an Initial whose intact copy the server accepted)
 	acted := c.Retried && !bytes.Equal(c.InitDCID, c.ODCID)
+	if len(c.shadows) > 0 {
+		// The server ran more than one connection for this dial (e.g. one created from an intact Initial with a valid
+		// NEW_TOKEN token, another from the Initial that answered the Retry a damaged copy had drawn): the transport
+		// parameters the observer decoded belong to one of them, the client may have finished with the other
+		res.Probe("several-server-connections-for-one-dial")
+		return
+	}
 	switch {
 	case acted && (!has || !bytes.Equal(tp.Val, c.RetrySCID)):
 		report("C14", "retry_source_connection_id does not carry back the connection ID of the Retry the client acted on", "tp %x retry scid %x", tp.Val, c.RetrySCID)
